@@ -338,8 +338,9 @@ impl<'a> Gen<'a> {
             }
             s.ops.push((a, op.clone()));
             match op {
-                Op::Root { slot, trace, .. } => {
-                    if let Some(ti) = c.traces.iter().position(|t| t.trace == trace.0) {
+                Op::Root { slot, trace, remote_parent, .. } => {
+                    // (two options may carry the same trace id: two requests continuing one trace)
+                    if let Some(ti) = c.traces.iter().position(|t| t.trace == trace.0 && t.remote_parent == *remote_parent) {
                         s.used_traces[ti] = true;
                     }
                     s.spans.push(SpanInfo { slot: *slot, live: true, noop: false, root: true, cancelled: false });
